@@ -3,7 +3,7 @@
    exactly the class's attribute list, for every input, callback and fuel; elements of sequences / dict values / tuple
    components are produced by the converter for the element type.  That union hooks return a value of an alternative
    is decided by the abstract-interpretation obligations shared with C01 and validated on the streams. *)
-From LSP Require Import Base MM Sem SemThy Disp Typing.
+From LSP Require Import Base MM Sem SemThy Disp Typing Denote.
 From Gen Require Import MMData PkgData Known.
 
 Section AnyStr.
@@ -23,6 +23,15 @@ Theorem C03_enum_result_is_member : forall n e d j o, lookup_enum Sg e = Some d 
 Proof. intros n e d j o L H. destruct n as [|n]; [discriminate|]. exact (enum_result_is_member Sg pystr _ e d j o L H). Qed.
 End AnyStr.
 
+(* the typing judgment [has_type] (Denote.v) with its executable twin typed_b: sound, and every well-typed value
+   serialises successfully to its denotation — so a structured result that is well-typed can always be written back.
+   On every run the correspondence stream evaluates typed_b on the model's result for EVERY generated valid input (and the
+   model's result equals the real converter's object graph), see lib/conv_stream.py / Corr.judge codes 6 and 7. *)
+Theorem C03_typed_b_sound : forall n P o, typed_b Sg n P o = true -> has_type Sg P o.
+Proof. intros n P o. exact (proj2 (typed_b_sound Sg n) P o). Qed.
+Theorem C03_well_typed_values_serialise : forall P o, has_type Sg P o -> exists m, unstr Sg m (Some P) o = Ok (den Sg o).
+Proof. exact (unstr_typed Sg). Qed.
+
 Example C03_example : exists c fs, lookup_cls Sg c = Some fs /\ length fs >= 2.
 Proof. exists "Position". eexists. split; [vm_compute; reflexivity | repeat constructor]. Qed.
 
@@ -30,3 +39,5 @@ Print Assumptions C03_class_result_shape.
 Print Assumptions C03_seq_result_shape.
 Print Assumptions C03_tuple_result_shape.
 Print Assumptions C03_enum_result_is_member.
+Print Assumptions C03_typed_b_sound.
+Print Assumptions C03_well_typed_values_serialise.
